@@ -73,6 +73,11 @@ Proof. vm_compute. exact I. Qed.
 Theorem C05_code_order : exchange_order.
 Proof. exact exchange_order_holds. Qed.
 
+(* ... and these are all the paths: every list of decisions long enough to reach the end of any path through the
+   skeleton yields one of the model's traces *)
+Theorem C05_code_paths_complete : exchange_paths_complete.
+Proof. exact exchange_paths_complete_holds. Qed.
+
 Print Assumptions C05_exchange_recv_spec.
 Print Assumptions C05_acceptable_means_authentic.
 Print Assumptions C05_returns_only_acceptable.
@@ -80,3 +85,4 @@ Print Assumptions C05_returns_first_acceptable.
 Print Assumptions C05_fails_iff_budget.
 Print Assumptions C05_zero_budget_never_fails.
 Print Assumptions C05_code_order.
+Print Assumptions C05_code_paths_complete.
